@@ -209,7 +209,13 @@ class AstMap:
         """
         if not isinstance(std_node, CaitNode):
             raise TypeError
-        self.exp_table[ins_node.astNode.id] = std_node
+        # The placeholder may sit in an identifier field other than a Name's
+        # id (an attribute such as `.__name__`, or an argument name)
+        pattern_node = ins_node.astNode
+        for identifier_field in ('id', 'attr', 'arg', 'name'):
+            if hasattr(pattern_node, identifier_field):
+                self.exp_table[getattr(pattern_node, identifier_field)] = std_node
+                break
 
     def add_node_pairing(self, ins_node, std_node):
         """
